@@ -7,10 +7,10 @@ set -u
 id=$1; wt=${2:-/tmp/wt-$id}; sd=$wt/.seeded
 export GOFLAGS=-mod=mod GOPROXY=off
 [ -f $sd/patch.diff ] || { echo "no $sd/patch.diff"; exit 2; }
-cd /repo; [ -z "$(git status --porcelain --untracked-files=no)" ] || { echo "/repo not clean"; exit 2; }
-git apply --check $sd/patch.diff || { echo "PATCH DOES NOT APPLY to /repo HEAD"; exit 2; }
+cd /repo
+git apply --check $sd/patch.diff 2>/dev/null || echo "note: patch does not apply to /repo's working tree as it is now (checked against HEAD in the scratch worktree below)"
 scratch=/tmp/seedchk-$id; rm -rf $scratch; git worktree add --detach $scratch HEAD -q || exit 2
-trap 'git -C /repo checkout -- . ; git -C /repo worktree remove --force '$scratch' 2>/dev/null' EXIT
+trap 'git -C /repo worktree remove --force '$scratch' 2>/dev/null' EXIT
 demo=$(ls $sd/demo_test.go $sd/demo/main.go 2>/dev/null | head -1)
 where=$(head -3 $demo | tr '\n' ' ')
 echo "demo header: $where"
@@ -30,7 +30,8 @@ echo "demo without patch rc=$rc0 ; with patch rc=$rc1   (want 0 / non-zero)"
 rm -f $scratch/$dir/zz_seeded_demo_test.go
 ( cd $scratch && go build ./... && go test -vet=off -count=1 ./... >/tmp/seed-$id-suite.log 2>&1 ); rcs=$?
 echo "suite with patch rc=$rcs (want 0); FAIL lines: $(grep -c '^--- FAIL\|^FAIL' /tmp/seed-$id-suite.log)"
-cd /repo && git apply $sd/patch.diff
-cd /verif && ./check $id > /tmp/seed-$id-check.log 2>&1; rcc=$?
+# the check is built against the scratch worktree (patch applied there), /repo itself stays untouched
+( cd $scratch && git checkout -q -- . && git apply $sd/patch.diff ) || exit 2
+cd /verif && VERIF_REPO=$scratch ./check $id > /tmp/seed-$id-check.log 2>&1; rcc=$?
 grep -E "^(VIOLATION|OK|INCONCLUSIVE|KNOWN)" /tmp/seed-$id-check.log | head -5
 echo "check rc=$rcc (1 = detected)"
